@@ -4,7 +4,7 @@ package routing
 // Real Core + AgentManager + MuxAgent, real PingAgent, real RestAgent driven through its router
 // with recorder requests (no sockets), mock agents; scripted peers to see that nothing local
 // leaks to the network. The deliver-during-fetch interleaving is forced at the REST mailbox hooks.
-// (DESIGN.md §4 C07. The WebSocket agent is not driven by this harness.)
+// WebSocket clients: sim_local_ws_test.go. (DESIGN.md §4 C07, §8.3.)
 
 import (
 	"bytes"
@@ -65,6 +65,8 @@ type localSim struct {
 	mockReg []bool
 	mockEids [][]string
 	clients []*restClient
+	ws      *agent.WebSocketAgent
+	wsClients []*wsClient
 	lbs     map[string]*localBundle
 	pongs   int
 	pingsSent int
@@ -172,6 +174,16 @@ func (l *localSim) body() {
 	c := n.core
 	n.inject("reg-rest", func() { c.RegisterApplicationAgent(l.rest) })
 	n.inject("reg-ping", func() { c.RegisterApplicationAgent(l.ping) })
+	var wsSpecs []int
+	simk.Recode(n.c.Cfg["ws"], &wsSpecs)
+	if len(wsSpecs) > 0 {
+		l.ws = agent.NewWebSocketAgent()
+		defer l.wsInstall()()
+		n.inject("reg-ws", func() { c.RegisterApplicationAgent(l.ws) })
+		for i, e := range wsSpecs {
+			l.wsClients = append(l.wsClients, &wsClient{idx: i, eid: localEndpoints[e%len(localEndpoints)], expect: map[string]int{}})
+		}
+	}
 	var mockSpecs [][]int
 	simk.Recode(n.c.Cfg["mocks"], &mockSpecs)
 	for i, es := range mockSpecs {
@@ -305,6 +317,10 @@ func (l *localSim) exec(op simk.Op) {
 			l.post("/unregister", agent.RestUnregisterRequest{UUID: cl.uuid}, &resp)
 		})
 		cl.reg = false
+	case "ws_reg":
+		l.wsReg(op.P)
+	case "ws_unreg":
+		l.wsUnreg(op.P)
 	case "rest_fetch":
 		if op.P < 0 || op.P >= len(l.clients) || !l.clients[op.P].reg {
 			return
@@ -373,6 +389,12 @@ func (l *localSim) deliver(op simk.Op, parClient int) {
 	for _, cl := range l.clients {
 		if cl.reg && cl.eid == dst {
 			cl.expect[tag]++
+			any = true
+		}
+	}
+	for _, wc := range l.wsClients {
+		if wc.reg && wc.eid == dst {
+			wc.expect[tag]++
 			any = true
 		}
 	}
@@ -450,6 +472,7 @@ func (l *localSim) finish() {
 			}
 		}
 	}
+	l.wsJudge()
 	// mock agents
 	for i := range l.mocks {
 		if len(l.mockInst[i]) == 0 {
@@ -629,8 +652,22 @@ func genLocalCase(seed uint64, tier, focus, variant string) *simk.Case {
 		clients = append(clients, r.Intn(3))
 	}
 	c.Cfg["clients"] = clients
+	rw := simk.NewRand(seed, "ws")
+	nw := rw.Pick(0, 0, 1, 2, 3)
+	var wss []int
+	for i := 0; i < nw; i++ {
+		wss = append(wss, rw.Intn(3))
+	}
+	c.Cfg["ws"] = wss
 	n := r.Range(4, 30)
 	for i := 0; i < n; i++ {
+		if nw > 0 && rw.Bool(0.2) {
+			if rw.Bool(0.7) {
+				c.Ops = append(c.Ops, simk.Op{K: "ws_reg", P: rw.Intn(nw)})
+			} else {
+				c.Ops = append(c.Ops, simk.Op{K: "ws_unreg", P: rw.Intn(nw)})
+			}
+		}
 		switch x := r.Intn(100); {
 		case x < 12 && nm > 0:
 			c.Ops = append(c.Ops, simk.Op{K: "mock_reg", P: r.Intn(nm)})
